@@ -8,6 +8,8 @@ Modelled after
 * simple branch of `Quantity.__init__(category, unit)`       → `newQuantity`   (legacy retry after
   `CheckCategoryUnit` said `InvalidUnitError`, then `GetInfo(.., fix_unknown=True)` for `_tobase`)
 * `ObtainQuantity(unit: str, category: str | None)`          → `obtainQuantity`
+* `ObtainQuantity({category: (unit, exp)})` / `ObtainQuantity([(unit, exp)], [category])` (composing
+  mapping forms, cold cache) → `obtainFromMapping`, `obtainFromLists`
 * `Scalar/Array/FractionScalar(value, unit[, category])`     → `create`        (= `ObtainQuantity`)
 * `Quantity.ConvertScalarValue` (`Scalar.GetValue(unit)`)    → `getValue`
 * `Array.GetValues(unit)` → `Quantity.Convert` → `UnitDatabase.Convert` on a list → `getValues`,
@@ -158,6 +160,103 @@ def Db.create {α : Type} (db : Db) (v : α) (u : Sym) (cat : Option Sym) : Exce
   match db.obtainQuantity u cat with
   | .ok q => .ok (q, v)
   | .error e => .error e
+
+/-! ### `ObtainQuantity` with a composing mapping (dict form, parallel-lists form) -/
+
+/-- one entry `category -> (unit, exponent)` of a composing mapping -/
+structure MapCell where
+  cat : Sym
+  unit : Sym
+  exp : Int
+deriving DecidableEq, Repr
+
+/-- what `ObtainQuantity` gives back for a mapping: a simple quantity, or a derived one (its
+composing categories, units and exponents in order) -/
+inductive Obtained
+  | simple (q : Simple)
+  | derived (cells : List MapCell)
+deriving DecidableEq, Repr
+
+/-- `len(unit) == 1 and next(iter(unit.values()))[1] == 1`: "although passed as composing, it's a
+simple case" -/
+def simpleCell : List MapCell → Option MapCell
+  | [c] => if c.exp == 1 then some c else none
+  | _ => none
+
+/-- the loop `CheckQuantityTypeUnit(GetCategoryQuantityType(category), unit)` over the mapping (which
+uses `fix_legacy=False`); an unknown category is `InvalidQuantityTypeError` -/
+def Db.checkCells (db : Db) : List MapCell → Except ErrKind Unit
+  | [] => .ok ()
+  | c :: cs =>
+    match db.catByName c.cat with
+    | none => .error .units
+    | some ci =>
+      match db.checkQuantityTypeUnit ci.qtype c.unit with
+      | .error e => .error e
+      | .ok _ => db.checkCells cs
+
+/-- the dict branch of `ObtainQuantity` (`category` is `None`, no caption) on a cold cache: one entry
+with exponent 1 is unpacked and goes through the ordinary `(unit, category)` path; anything else is
+validated cell by cell and handed to `Quantity(mapping, None)`, which builds a derived quantity from
+an `OrderedDict` (`ordered`) and raises `TypeError` for any other mapping class -/
+def Db.obtainFromMapping (db : Db) (ordered : Bool) (cells : List MapCell) : Except ErrKind Obtained :=
+  match simpleCell cells with
+  | some c =>
+    match db.obtainQuantity c.unit (some c.cat) with
+    | .ok q => .ok (.simple q)
+    | .error e => .error e
+  | none =>
+    match db.checkCells cells with
+    | .error e => .error e
+    | .ok _ => if ordered then .ok (.derived cells) else .error .type
+
+/-- `d[cat] = (unit, exp)` on an ordered dict: an existing key keeps its position and takes the new
+value -/
+def odictSet (cat : Sym) (ue : Sym × Int) : List MapCell → List MapCell
+  | [] => [⟨cat, ue.1, ue.2⟩]
+  | c :: cs => if c.cat == cat then ⟨cat, ue.1, ue.2⟩ :: cs else c :: odictSet cat ue cs
+
+/-- `OrderedDict((cat, unit_and_exp) for (cat, unit_and_exp) in zip(category, unit))`, onto `acc` -/
+def odictOfZip : List MapCell → List Sym → List (Sym × Int) → List MapCell
+  | acc, c :: cs, ue :: ues => odictOfZip (odictSet c ue acc) cs ues
+  | acc, _, _ => acc
+
+/-- the `category` argument next to a list of `(unit, exponent)`: `None`, a string, or a list/tuple -/
+inductive CatArg
+  | none
+  | str (c : Sym)
+  | list (cs : List Sym)
+deriving DecidableEq, Repr
+
+/-- `len(unit) == 1 and unit[0][1] == 1` -/
+def simplePair : List (Sym × Int) → Option Sym
+  | [ue] => if ue.2 == 1 then some ue.1 else none
+  | _ => none
+
+/-- `ObtainQuantity([(unit, exp), …], category)`: a single pair with exponent 1 is the plain form
+(with the first element of a category list: `IndexError` for an empty one); otherwise the category must
+be a list/tuple (`assert`) and the zipped ordered dict goes through the dict branch -/
+def Db.obtainFromLists (db : Db) (units : List (Sym × Int)) (cat : CatArg) : Except ErrKind Obtained :=
+  match simplePair units with
+  | some u =>
+    match cat with
+    | .list [] => .error .index
+    | .list (c :: _) =>
+      match db.obtainQuantity u (some c) with
+      | .ok q => .ok (.simple q)
+      | .error e => .error e
+    | .str c =>
+      match db.obtainQuantity u (some c) with
+      | .ok q => .ok (.simple q)
+      | .error e => .error e
+    | .none =>
+      match db.obtainQuantity u none with
+      | .ok q => .ok (.simple q)
+      | .error e => .error e
+  | none =>
+    match cat with
+    | .list cs => db.obtainFromMapping true (odictOfZip [] cs units)
+    | _ => .error .assertion
 
 /-! ### reading values in another unit -/
 
